@@ -4,4 +4,4 @@ d=json.load(open(sys.argv[1]))
 p=d.get('plan',d)
 print('signature:',d.get('signature')); print('message:',(d.get('message') or '')[:600])
 print('cfg:',json.dumps(p['cfg'])); print('seed',p['seed'],'map_seed',p['map_seed'],'sched nonzero',sum(1 for x in (p.get('sched') or []) if x),'/',len(p.get('sched') or []),'fault',(p.get('fault') or []),'deliver',(p.get('deliver') or [])[:40])
-for i,o in enumerate(p['ops']): print(' ',i,json.dumps(o))
+for i,o in enumerate(p.get('ops') or []): print(' ',i,json.dumps(o))
